@@ -20,45 +20,51 @@ open(prog, 'w').write("""
 import sys, os; sys.path.insert(0, %%r)
 from vlib import build, refmodel
 import numpy as np
-rw = refmodel.RealWriter(build, sys.argv[1], 10, 1, 3600, 1000, 10**10, int(sys.argv[2]))
+N = int(sys.argv[3])          # samples per call == samples per file (N = 10: everything stays in HDF5's caches until close; N large: H5Dwrite reaches the OS directly)
+rw = refmodel.RealWriter(build, sys.argv[1], N, 1, 3600, 1000, 10**10, int(sys.argv[2]))
 rets = []
-for g in (0, 10, 20):
-    rets.append(rw.write_blocks([g], [0], (np.arange(10, dtype=np.int16) + g).reshape(-1, 1)))
+for g in (0, N, 2 * N):
+    rets.append(rw.write_blocks([g], [0], ((np.arange(N, dtype=np.int64) + g) %%%% 30000).astype(np.int16).reshape(-1, 1)))
 rw.close()
 print('RETS', rets)
 """ %% common.VERIF)
 build.clib()
 kinds = %r
 bad = 0
-for cont in (0, 1):
-    for op in kinds:
-        for after in range(0, 17):
+import numpy as np
+for N in (10, 300000):
+  for cont in (0, 1):
+    for op in (kinds if N == 10 else [k for k in kinds if k == 'write']):
+        for after in range(0, 17 if N == 10 else 12):
             for persist in (0, 1):
                 ch = os.path.join(top, 'ch'); shutil.rmtree(ch, ignore_errors=True); os.makedirs(ch)
                 env = dict(os.environ, LD_PRELOAD=so, FAULTFS_MATCH='rf@', FAULTFS_OP=op, FAULTFS_AFTER=str(after), FAULTFS_PERSIST=str(persist), VERIF_SCRATCH_BASE=top)
-                r = subprocess.run([sys.executable, prog, ch, str(cont)], env=env, stdout=subprocess.PIPE, stderr=subprocess.DEVNULL, text=True)
+                r = subprocess.run([sys.executable, prog, ch, str(cont), str(N)], env=env, stdout=subprocess.PIPE, stderr=subprocess.DEVNULL, text=True)
                 m = re.search(r'RETS \\[(.*)\\]', r.stdout)
                 if not m: continue          # the recorder died (e.g. fault during channel creation): nothing was acknowledged
                 rets = [int(x) for x in m.group(1).split(',')]
-                readable = set()
+                tag = 'N=%%d op=%%s after=%%d persist=%%d cont=%%d' %% (N, op, after, persist, cont)
+                readable = np.zeros(3 * N, dtype=bool)
                 for f in glob.glob(os.path.join(ch, '*', 'rf@*.h5')):
                     try:
                         with h5py.File(f, 'r') as h:
-                            idx = h['rf_data_index'][...]; d = h['rf_data'][...]
-                            for (s, o), nxt in zip(idx, list(idx[1:, 1]) + [d.shape[0]]):
-                                for j in range(int(o), int(nxt)):
-                                    if int(d[j, 0]) != -32768: readable.add(int(s) + j - int(o))
-                                    if int(d[j, 0]) not in (-32768, (int(s) + j - int(o)) - 10**10): print('WRONG VALUE in', f); bad = 1
+                            idx = h['rf_data_index'][...]; d = h['rf_data'][...][:, 0].astype(np.int64)
+                        for (s_, o), nxt in zip(idx, list(idx[1:, 1]) + [d.shape[0]]):
+                            rel = int(s_) - 10**10 + np.arange(int(nxt) - int(o))
+                            v = d[int(o):int(nxt)]
+                            ok = (v == rel %% 30000)
+                            if not np.all(ok | (v == -32768)): print(tag + ': WRONG VALUE in', f); bad = 1
+                            inr = (rel >= 0) & (rel < 3 * N)
+                            readable[rel[inr & ok]] = True
                     except Exception as e:
-                        print('op=%%s after=%%d persist=%%d cont=%%d: published file %%s is unreadable (%%s); returns %%s' %% (op, after, persist, cont, os.path.basename(f), type(e).__name__, rets)); bad = 1
+                        print(tag + ': published file %%s is unreadable (%%s); returns %%s' %% (os.path.basename(f), type(e).__name__, rets)); bad = 1
                 for i, rv in enumerate(rets):
                     if rv == 0:
-                        want = set(range(10**10 + 10 * i, 10**10 + 10 * i + 10))
-                        if not want <= readable and all(x == 0 for x in rets[i:i + 2]) and i + 1 < len(rets):
-                            print('op=%%s after=%%d persist=%%d cont=%%d: call %%d accepted, its samples are not readable, and the next call reported no error: %%s' %% (op, after, persist, cont, i, rets)); bad = 1
-                    first_fail = next((j for j, x in enumerate(rets) if x != 0), None)
+                        if not readable[i * N:(i + 1) * N].all() and all(x == 0 for x in rets[i:i + 2]) and i + 1 < len(rets):
+                            print(tag + ': call %%d accepted, its samples are not readable, and the next call reported no error: %%s' %% (i, rets)); bad = 1
+                first_fail = next((j for j, x in enumerate(rets) if x != 0), None)
                 if first_fail is not None and any(x == 0 for x in rets[first_fail + 1:]):
-                    print('op=%%s after=%%d persist=%%d cont=%%d: a write was accepted after a reported I/O failure: %%s' %% (op, after, persist, cont, rets)); bad = 1
+                    print(tag + ': a write was accepted after a reported I/O failure: %%s' %% (rets,)); bad = 1
 shutil.rmtree(top, ignore_errors=True)
 sys.exit(1 if bad else 0)
 '''
